@@ -1,5 +1,5 @@
 (** * StorageA: structure creation (archetypes, tables) and the pool, against the invariant.
-    Layer A of the storage proofs, for worlds without relation components ([St s]). To be filled. *)
+    Layer A of the storage proofs, for worlds without relation components ([St s]). Helper lemmas carry the prefix [sa_]. *)
 From Ark Require Import Model.Base Model.Mask Model.Pool Model.Util Model.World Model.Run.
 From Ark Require Import Proofs.TableProofs Proofs.MaskProofs Proofs.Hoare Proofs.WF.
 From RecordUpdate Require Import RecordSet.
@@ -21,13 +21,72 @@ Definition storage_same (s s' : W) : Prop :=
   w_res s' = w_res s /\ w_issued s' = w_issued s.
 
 Lemma same_rows_refl : forall s, same_rows s s.
-Admitted.
+Proof.
+  intros s. unfold same_rows. repeat split; auto.
+  - intros tid t H. exists t. unfold table_same_data. repeat split; auto.
+  - intros aid a H. exists a. auto.
+Qed.
 Lemma same_rows_trans : forall s1 s2 s3, same_rows s1 s2 -> same_rows s2 s3 -> same_rows s1 s3.
-Admitted.
+Proof.
+  intros s1 s2 s3 (A1 & A2 & A3 & A4 & A5 & A6 & A7 & A8) (B1 & B2 & B3 & B4 & B5 & B6 & B7 & B8).
+  unfold same_rows. repeat split; try congruence.
+  - intros tid t H. destruct (A7 tid t H) as (t' & H' & D & T).
+    destruct (B7 tid t' H') as (t'' & H'' & D' & T').
+    exists t''. split; [exact H''|]. unfold table_same_data in *.
+    destruct D as (D1 & D2 & D3 & D4 & D5 & D6 & D7). destruct D' as (E1 & E2 & E3 & E4 & E5 & E6 & E7).
+    split; [repeat split; congruence|].
+    intros L. destruct (T L) as (T1 & T2 & T3). assert (L' : 0 < t_len t') by lia.
+    destruct (T' L') as (U1 & U2 & U3). repeat split; congruence.
+  - intros aid a H. destruct (A8 aid a H) as (a' & H' & M). destruct (B8 aid a' H') as (a'' & H'' & M').
+    exists a''. split; congruence.
+Qed.
+(** *** Extensionality of the invariant in the fields it mentions *)
+Lemma sa_kind_of_ext : forall s s', w_reg s' = w_reg s -> forall c, kind_of s' c = kind_of s c.
+Proof. intros s s' E c. unfold kind_of. rewrite E. reflexivity. Qed.
+
+Lemma sa_loc_ext : forall s s', w_index s' = w_index s -> forall e, loc s' e = loc s e.
+Proof. intros s s' E e. unfold loc. rewrite E. reflexivity. Qed.
+
+Lemma sa_WF_ext : forall s s',
+  w_cfg s' = w_cfg s -> w_reg s' = w_reg s -> w_pool s' = w_pool s -> w_index s' = w_index s ->
+  w_istarget s' = w_istarget s -> w_archs s' = w_archs s -> w_tables s' = w_tables s ->
+  w_compindex s' = w_compindex s -> w_archcount s' = w_archcount s ->
+  w_cheap s' = w_cheap s -> w_centries s' = w_centries s -> w_filters s' = w_filters s ->
+  WF s -> WF s'.
+Proof.
+  intros s s' E1 E2 E3 E4 E5 E6 E7 E8 E9 E10 E11 E12 H.
+  assert (K : forall c, kind_of s' c = kind_of s c) by (apply sa_kind_of_ext; auto).
+  assert (L : forall e, loc s' e = loc s e) by (apply sa_loc_ext; auto).
+  assert (KM : forall l, map (kind_of s') l = map (kind_of s) l) by (intros; apply map_ext; auto).
+  destruct H. constructor; rewrite ?E1, ?E2, ?E3, ?E4, ?E5, ?E6, ?E7, ?E8, ?E9, ?E10, ?E11, ?E12; auto.
+  - intros tid t Ht. destruct (wf_layout tid t Ht) as (a & A1 & A2 & A3 & A4). exists a. rewrite KM. auto.
+  - intros aid a Ha. destruct (wf_arch_comps aid a Ha) as (A1 & A2 & A3 & A4 & A5).
+    repeat split; auto. rewrite A3. apply map_ext. intros c. rewrite K. reflexivity.
+  - intros tid t r Ht Hr. rewrite L. auto.
+Qed.
+
+Lemma sa_NoRel_ext : forall s s',
+  w_reg s' = w_reg s -> w_archs s' = w_archs s -> w_tables s' = w_tables s -> w_relarchs s' = w_relarchs s ->
+  NoRel s -> NoRel s'.
+Proof.
+  intros s s' E1 E2 E3 E4 (N1 & N2 & N3 & N4). unfold NoRel. rewrite E2, E3, E4.
+  split; [|split; [|split]]; auto. intros c. rewrite (sa_kind_of_ext s s' E1). auto.
+Qed.
+
 Lemma storage_same_St : forall s s', storage_same s s' -> St s -> St s'.
-Admitted.
+Proof.
+  intros s s' (E1 & E2 & E3 & E4 & E5 & E6 & E7 & E8 & E9 & E10 & E11 & E12 & E13 & E14 & E15 & E16 & E17 & E18) [HW HN].
+  split.
+  - apply (sa_WF_ext s s'); auto.
+  - apply (sa_NoRel_ext s s'); auto.
+Qed.
 Lemma storage_same_rows : forall s s', storage_same s s' -> same_rows s s'.
-Admitted.
+Proof.
+  intros s s' (E1 & E2 & E3 & E4 & E5 & E6 & E7 & E8 & E9 & E10 & E11 & E12 & E13 & E14 & E15 & E16 & E17 & E18).
+  unfold same_rows. rewrite E6, E7. repeat split; auto.
+  - intros tid t H. exists t. unfold table_same_data. repeat split; auto.
+  - intros aid a H. exists a. auto.
+Qed.
 
 (** [live s e]: [e] is the current incarnation of an entity stored in a row (boolean form of
     [present]); [val s e c]: the value of component [c] of [e], [None] if [e] is not live or lacks [c].
@@ -47,42 +106,591 @@ Definition val (s : W) (e : ent) (c : nat) : option Z := if live s e then value_
 Definition content_same (s s' : W) : Prop :=
   forall e, live s' e = live s e /\ forall c, val s' e c = val s e c.
 
+Lemma sa_ent_eqb_eq : forall a b : ent, ent_eqb a b = true <-> a = b.
+Proof.
+  intros [a1 a2] [b1 b2]. unfold ent_eqb; simpl. rewrite andb_true_iff, Nat.eqb_eq, N.eqb_eq.
+  split; [intros [-> ->]; reflexivity | intros H; inversion H; auto].
+Qed.
+
+Lemma sa_ent_eqb_refl : forall a : ent, ent_eqb a a = true.
+Proof. intros a. apply sa_ent_eqb_eq. reflexivity. Qed.
+
 Lemma live_present : forall s e, live s e = true <-> present s e.
-Admitted.
+Proof.
+  intros s e. unfold live, present. split.
+  - intros H. destruct (loc s e) as [[tid r]|] eqn:L; [|discriminate].
+    destruct (nth_error (w_tables s) tid) as [t|] eqn:T; [|discriminate].
+    apply andb_true_iff in H. destruct H as [H1 H2]. apply Nat.ltb_lt in H1. apply sa_ent_eqb_eq in H2.
+    exists tid, r, t. auto.
+  - intros (tid & r & t & L & T & R & E). rewrite L, T. apply andb_true_iff. split.
+    + apply Nat.ltb_lt; exact R.
+    + apply sa_ent_eqb_eq; exact E.
+Qed.
 
 (** Under [same_rows] the content of the world is unchanged. *)
 Lemma same_rows_content : forall s s', WF s -> same_rows s s' -> content_same s s'.
-Admitted.
+Proof.
+  intros s s' HW (A1 & A2 & A3 & A4 & A5 & A6 & A7 & A8) e.
+  assert (L : loc s' e = loc s e) by (apply sa_loc_ext; auto).
+  unfold val, live, value_of. rewrite L.
+  destruct (loc s e) as [[tid r]|] eqn:Le; [|auto].
+  unfold loc in Le. destruct (nth_error (w_index s) (fst e)) as [[[tid'|] r']|] eqn:Ix; try discriminate.
+  inversion Le; subst tid' r'.
+  destruct (wf_index _ HW _ _ _ Ix) as (t & T & R & F).
+  destruct (A7 tid t T) as (t' & T' & (D1 & D2 & D3 & D4 & D5 & D6 & D7) & _).
+  rewrite T, T'. unfold row_ent, tbl_colidx, cell. rewrite D1, D3, D4, D5. auto.
+Qed.
 
 (** Consequences of the invariant used everywhere. *)
 Lemma live_alive : forall s e, WF s -> live s e = true -> alive s e = true /\ 2 <= fst e.
-Admitted.
+Proof.
+  intros s e HW H. apply live_present in H. destruct H as (tid & r & t & L & T & R & E).
+  destruct (wf_rows _ HW tid t r T R) as (_ & P). rewrite E in P. split.
+  - unfold alive, pool_alive. rewrite P. destruct e; simpl. apply N.eqb_refl.
+  - unfold loc in L. destruct (wf_reserved _ HW) as ((r0 & I0) & (r1 & I1) & _).
+    destruct (fst e) as [|[|n]]; [rewrite I0 in L; discriminate | rewrite I1 in L; discriminate | lia].
+Qed.
 Lemma live_unique : forall s e e', WF s -> live s e = true -> live s e' = true -> fst e = fst e' -> e = e'.
-Admitted.
+Proof.
+  intros s e e' HW H H' F. apply live_present in H, H'.
+  destruct H as (tid & r & t & L & T & R & E). destruct H' as (tid' & r' & t' & L' & T' & R' & E').
+  unfold loc in L, L'. rewrite <- F in L'. rewrite L' in L.
+  destruct (nth_error (w_index s) (fst e)) as [[[x|] y]|]; try discriminate.
+  inversion L; subst. rewrite T in T'. inversion T'; subst. reflexivity.
+Qed.
 (** Rows are bounded by the pool (distinct rows hold distinct IDs). *)
+Lemma sa_NoDup_map_inj : forall A B (f : A -> B) l,
+  (forall x y, In x l -> In y l -> f x = f y -> x = y) -> NoDup l -> NoDup (map f l).
+Proof.
+  induction l as [|a l IH]; intros Inj ND; simpl; [constructor|].
+  inversion ND as [|? ? Na Nl]; subst. constructor.
+  - intros H. apply in_map_iff in H. destruct H as (y & E & Hy).
+    assert (y = a) by (apply Inj; simpl; auto). subst. contradiction.
+  - apply IH; auto. intros x y Hx Hy. apply Inj; simpl; auto.
+Qed.
+
 Lemma rows_le_pool : forall s tid t, WF s -> nth_error (w_tables s) tid = Some t -> t_len t <= length (pe (w_pool s)).
-Admitted.
+Proof.
+  intros s tid t HW T.
+  set (f := fun r => fst (row_ent t r)).
+  assert (ND : NoDup (map f (seq 0 (t_len t)))).
+  { apply sa_NoDup_map_inj; [|apply seq_NoDup].
+    intros x y Hx Hy E. apply in_seq in Hx, Hy.
+    destruct (wf_rows _ HW tid t x T) as (Lx & _); [lia|]. destruct (wf_rows _ HW tid t y T) as (Ly & _); [lia|].
+    unfold loc in Lx, Ly. unfold f in E. rewrite E in Lx. rewrite Ly in Lx. inversion Lx; auto. }
+  assert (IN : incl (map f (seq 0 (t_len t))) (seq 0 (length (pe (w_pool s))))).
+  { intros x Hx. apply in_map_iff in Hx. destruct Hx as (r & <- & Hr). apply in_seq in Hr.
+    destruct (wf_rows _ HW tid t r T) as (_ & P); [lia|]. apply in_seq. split; [lia|]. simpl.
+    unfold f. apply nth_error_Some. rewrite P. discriminate. }
+  pose proof (NoDup_incl_length ND IN) as H. rewrite map_length, !seq_length in H. exact H.
+Qed.
 (** The component set of a live entity is the mask of its archetype: [val] is defined exactly on it. *)
+Lemma sa_index_of_some_in : forall x l i, index_of x l = Some i -> In x l.
+Proof.
+  intros x l i H. apply index_of_split in H. destruct H as (l1 & l2 & -> & _). apply in_or_app. right. left. reflexivity.
+Qed.
+
+Lemma sa_in_index_of : forall x l, In x l -> exists i, index_of x l = Some i.
+Proof.
+  intros x l H. destruct (index_of x l) eqn:E; [eauto|]. apply index_of_none in E. contradiction.
+Qed.
+
 Lemma val_defined_iff_mask : forall s e tid r t a, WF s -> live s e = true -> loc s e = Some (tid, r) ->
   nth_error (w_tables s) tid = Some t -> nth_error (w_archs s) (t_arch t) = Some a ->
   forall c, (val s e c <> None <-> mk_get (a_mask a) c = true).
-Admitted.
+Proof.
+  intros s e tid r t a HW Hl L T A c. unfold val. rewrite Hl. unfold value_of. rewrite L, T.
+  destruct (wf_layout _ HW tid t T) as (a' & A' & I & _). rewrite A in A'. inversion A'; subst a'.
+  destruct (wf_arch_comps _ HW _ _ A) as (C & B & _).
+  unfold tbl_colidx. rewrite I, C. split.
+  - intros H. destruct (index_of c (mk_to_list (a_mask a) (length (w_reg s)))) eqn:E; [|congruence].
+    apply sa_index_of_some_in in E. apply mk_to_list_spec in E. tauto.
+  - intros H. assert (In c (mk_to_list (a_mask a) (length (w_reg s)))) as Hin by (apply mk_to_list_spec; auto).
+    apply sa_in_index_of in Hin. destruct Hin as (i & ->). discriminate.
+Qed.
 
 (** The initial world (any capacities >= 1, any registered kinds without relations that fit the mask). *)
+Lemma sa_mk_get_0 : forall j, mk_get 0%N j = false.
+Proof. intros j. unfold mk_get. apply N.bits_0. Qed.
+
+Lemma sa_mk_to_list_0 : forall n, mk_to_list 0%N n = [].
+Proof. intros n. unfold mk_to_list. apply mk_to_list_from_nil. intros. apply sa_mk_get_0. Qed.
+
+Lemma sa_small_2 : 2 < Nat.pow 2 31.
+Proof.
+  rewrite (Nat.pow_succ_r' 2 30), (Nat.pow_succ_r' 2 29).
+  pose proof (Nat.pow_nonzero 2 29). lia.
+Qed.
+
 Lemma St_init : forall c, 1 <= sc_cap c -> 1 <= sc_caprel c -> length (sc_kinds c) <= sc_bits c ->
   Forall (fun k => ck_rel k = false) (sc_kinds c) -> St (init_world c).
-Admitted.
+Proof.
+  intros c C1 C2 C3 C4. split.
+  - constructor; unfold init_world; cbn [w_tables w_archs w_reg w_cfg w_compindex w_archcount w_index w_pool w_istarget w_centries w_cheap w_filters].
+    + constructor; [|constructor]. apply new_table_ok. reflexivity.
+    + intros [|tid] t H; [|destruct tid; discriminate]. inversion H; subst t. cbn.
+      eexists. split; [reflexivity|]. cbn. auto.
+    + intros [|aid] a H; [|destruct aid; discriminate]. inversion H; subst a. cbn.
+      rewrite sa_mk_to_list_0. repeat split; auto. intros j Hj. discriminate.
+    + intros [|i] [|j] a b Hi Hj; auto; try (destruct j; discriminate); destruct i; discriminate.
+    + intros [|aid] a tid H; [|destruct aid; discriminate]. inversion H; subst a. cbn.
+      intros [[<-|[]]|[[]|[(i & m & k & l & Hn & _)|(k & l & Hn & _)]]].
+      * eexists. split; reflexivity.
+      * destruct i; discriminate.
+      * discriminate.
+    + intros [|aid] a H; [|destruct aid; discriminate]. inversion H; subst a. cbn. lia.
+    + eexists. split; [reflexivity|]. split; [reflexivity|]. eexists. split; reflexivity.
+    + rewrite !repeat_length. cbn. auto.
+    + cbn. auto.
+    + intros [|tid] t r H; [|destruct tid; discriminate]. inversion H; subst t. cbn. lia.
+    + intros [|[|id]] tid r H; cbn in H; try discriminate. destruct id; discriminate.
+    + exists []. split; [|split].
+      * unfold pool_ok, pool_new. cbn. repeat split; auto; try constructor; try (intros ? []); try lia.
+      * intros i [].
+      * cbn. intros i Hi. lia.
+    + cbn. repeat split; eauto.
+    + exact sa_small_2.
+    + intros addr [].
+  - unfold NoRel, init_world; cbn [w_tables w_archs w_reg w_relarchs]. split; [|split; [|split]]; auto.
+    + intros k. unfold kind_of. cbn [w_reg]. destruct (nth_error (sc_kinds c) k) eqn:E; [|reflexivity].
+      rewrite Forall_forall in C4. apply C4. eapply nth_error_In; eauto.
+    + intros [|tid] t H; [|destruct tid; discriminate]. inversion H; subst t. cbn. auto.
+    + intros [|aid] a H; [|destruct aid; discriminate]. inversion H; subst a. cbn. auto.
+Qed.
 
 (** find_or_create_arch: returns the archetype with exactly that mask; only appends archetypes. *)
+(** *** Frames compose *)
+Lemma sa_side_same_refl : forall s, side_same s s.
+Proof. intros s. unfold side_same. repeat split. Qed.
+Lemma sa_side_same_trans : forall s1 s2 s3, side_same s1 s2 -> side_same s2 s3 -> side_same s1 s3.
+Proof.
+  intros s1 s2 s3 (A1 & A2 & A3 & A4 & A5 & A6 & A7 & A8) (B1 & B2 & B3 & B4 & B5 & B6 & B7 & B8).
+  unfold side_same. repeat split; congruence.
+Qed.
+Lemma sa_frame_user_refl : forall s, frame_user s s.
+Proof. intros s. unfold frame_user. repeat split. Qed.
+Lemma sa_frame_user_trans : forall s1 s2 s3, frame_user s1 s2 -> frame_user s2 s3 -> frame_user s1 s3.
+Proof.
+  intros s1 s2 s3 (A1 & A2 & A3 & A4 & A5 & A6) (B1 & B2 & B3 & B4 & B5 & B6).
+  unfold frame_user. repeat split; congruence.
+Qed.
+
+(** *** Lists *)
+Lemma sa_nth_error_snoc : forall A (l : list A) a i x, nth_error (l ++ [a]) i = Some x ->
+  (i < length l /\ nth_error l i = Some x) \/ (i = length l /\ x = a).
+Proof.
+  intros A l a i x H. destruct (Nat.lt_ge_cases i (length l)) as [L|L].
+  - rewrite nth_error_app1 in H by exact L. auto.
+  - rewrite nth_error_app2 in H by exact L. destruct (i - length l) as [|k] eqn:E.
+    + simpl in H. inversion H. right. split; [lia|reflexivity].
+    + simpl in H. destruct k; discriminate.
+Qed.
+
+Lemma sa_nth_error_snoc_old : forall A (l : list A) a i x, nth_error l i = Some x -> nth_error (l ++ [a]) i = Some x.
+Proof.
+  intros A l a i x H. rewrite nth_error_app1; [exact H|]. apply nth_error_Some. rewrite H. discriminate.
+Qed.
+
+Lemma sa_nth_error_snoc_new : forall A (l : list A) a, nth_error (l ++ [a]) (length l) = Some a.
+Proof. intros. rewrite nth_error_app2 by lia. rewrite Nat.sub_diag. reflexivity. Qed.
+
+Lemma sa_nth_error_lt : forall A (l : list A) i x, nth_error l i = Some x -> i < length l.
+Proof. intros A l i x H. apply nth_error_Some. rewrite H. discriminate. Qed.
+
+Lemma sa_fold_length : forall A B (g : list A -> B -> list A) cs l,
+  (forall l c, length (g l c) = length l) -> length (fold_left g cs l) = length l.
+Proof.
+  intros A B g cs. induction cs as [|c cs IH]; intros l H; simpl; [reflexivity|].
+  rewrite IH by exact H. apply H.
+Qed.
+
+Lemma sa_filter_map_false : forall A (f : A -> bool) l, (forall x, f x = false) ->
+  filter (fun b : bool => b) (map f l) = [].
+Proof. intros A f l H. induction l; simpl; [reflexivity|]. rewrite H. exact IHl. Qed.
+
+(** *** find_arch *)
+Definition sa_find_go (m : mask) : list arch -> nat -> option nat :=
+  fix go (l : list arch) (i : nat) : option nat :=
+  match l with
+  | [] => None
+  | a :: t => if N.eqb (a_mask a) m then Some i else go t (S i)
+  end.
+
+Lemma sa_find_go_cons : forall m a l i,
+  sa_find_go m (a :: l) i = if N.eqb (a_mask a) m then Some i else sa_find_go m l (S i).
+Proof. reflexivity. Qed.
+
+Lemma sa_find_arch_go : forall s m, find_arch s m = sa_find_go m (w_archs s) 0.
+Proof. reflexivity. Qed.
+
+Lemma sa_find_go_some : forall m l i k, sa_find_go m l i = Some k ->
+  i <= k /\ exists a, nth_error l (k - i) = Some a /\ a_mask a = m.
+Proof.
+  intros m l. induction l as [|a l IH]; intros i k H; [discriminate|]. rewrite sa_find_go_cons in H.
+  destruct (N.eqb_spec (a_mask a) m) as [E|E].
+  - inversion H; subst. split; [lia|]. rewrite Nat.sub_diag. exists a. auto.
+  - apply IH in H. destruct H as (L & b & Hb & Mb). split; [lia|].
+    replace (k - i) with (S (k - S i)) by lia. exists b. auto.
+Qed.
+
+Lemma sa_find_go_none : forall m l i, sa_find_go m l i = None ->
+  forall j a, nth_error l j = Some a -> a_mask a <> m.
+Proof.
+  intros m l. induction l as [|a l IH]; intros i H j b Hj; [destruct j; discriminate|].
+  rewrite sa_find_go_cons in H. destruct (N.eqb_spec (a_mask a) m) as [E|E]; [discriminate|].
+  destruct j; simpl in Hj; [inversion Hj; subst; exact E|]. eapply IH; eauto.
+Qed.
+
+(** *** Appending an archetype without tables preserves the invariant *)
+Lemma sa_append_arch_St : forall s s' a,
+  St s ->
+  w_archs s' = w_archs s ++ [a] ->
+  w_cfg s' = w_cfg s -> w_reg s' = w_reg s -> w_pool s' = w_pool s -> w_index s' = w_index s ->
+  w_istarget s' = w_istarget s -> w_tables s' = w_tables s -> w_relarchs s' = w_relarchs s ->
+  length (w_compindex s') = length (w_compindex s) -> length (w_archcount s') = length (w_archcount s) ->
+  w_cheap s' = w_cheap s -> w_centries s' = w_centries s -> w_filters s' = w_filters s ->
+  (forall j, mk_get (a_mask a) j = true -> j < length (w_reg s)) ->
+  a_comps a = mk_to_list (a_mask a) (length (w_reg s)) ->
+  a_isrel a = map (fun c => ck_rel (kind_of s c)) (a_comps a) ->
+  a_numrel a = 0 -> a_tables a = [] -> a_free a = [] -> a_tgttabs a = [] ->
+  a_reltabs a = map (fun _ => []) (a_comps a) ->
+  (forall i b, nth_error (w_archs s) i = Some b -> a_mask b <> a_mask a) ->
+  St s'.
+Proof.
+  intros s s' a [HW HN] EA E1 E2 E3 E4 E5 E6 E7 E8 E9 E10 E11 E12 Hm Hc Hi Hn Ht Hf Hg Hr Hu.
+  assert (K : forall c, kind_of s' c = kind_of s c) by (apply sa_kind_of_ext; auto).
+  assert (L : forall e, loc s' e = loc s e) by (apply sa_loc_ext; auto).
+  assert (KM : forall l, map (kind_of s') l = map (kind_of s) l) by (intros; apply map_ext; auto).
+  destruct HN as (N1 & N2 & N3 & N4).
+  split.
+  - destruct HW. constructor; rewrite ?EA, ?E1, ?E2, ?E3, ?E4, ?E5, ?E6, ?E10, ?E11, ?E12; auto.
+    + intros tid t T. destruct (wf_layout tid t T) as (b & B1 & B2 & B3 & B4). exists b.
+      rewrite KM. split; [apply sa_nth_error_snoc_old; exact B1|auto].
+    + intros aid b Hb. apply sa_nth_error_snoc in Hb. destruct Hb as [[_ Hb]|[_ ->]].
+      * destruct (wf_arch_comps aid b Hb) as (A1 & A2 & A3 & A4 & A5). repeat split; auto.
+        rewrite A3. apply map_ext. intros c. rewrite K. reflexivity.
+      * repeat split; auto.
+        -- rewrite Hi. apply map_ext. intros c. rewrite K. reflexivity.
+        -- rewrite Hn, Hi. rewrite sa_filter_map_false; [reflexivity|]. intros c; apply N1.
+        -- rewrite Hr. apply map_length.
+    + intros i j x y Hx Hy M. apply sa_nth_error_snoc in Hx, Hy.
+      destruct Hx as [[Li Hx]|[Li ->]], Hy as [[Lj Hy]|[Lj ->]].
+      * eapply wf_arch_unique; eauto.
+      * exfalso. eapply Hu; eauto.
+      * exfalso. eapply Hu; eauto.
+      * lia.
+    + intros aid b tid Hb. apply sa_nth_error_snoc in Hb. destruct Hb as [[_ Hb]|[_ ->]].
+      * apply wf_arch_tables. exact Hb.
+      * rewrite Ht, Hf, Hg, Hr. intros [[]|[[]|[(i & m & k & l & Hm' & Hk & _)|(k & l & Hk & _)]]].
+        -- rewrite nth_error_map in Hm'. destruct (nth_error (a_comps a) i); simpl in Hm'; [|discriminate].
+           inversion Hm'; subst m. discriminate.
+        -- discriminate.
+    + intros aid b Hb. apply sa_nth_error_snoc in Hb. destruct Hb as [[_ Hb]|[_ ->]].
+      * apply wf_arch_norel_table with (aid := aid). exact Hb.
+      * intros _. rewrite Ht. simpl. lia.
+    + destruct wf_arch0 as (a0 & A0 & M0 & T0). exists a0. split; [apply sa_nth_error_snoc_old; exact A0|auto].
+    + rewrite E8, E9. exact wf_index_lists.
+    + intros tid t r T R. rewrite L. auto.
+  - unfold NoRel. rewrite EA, E6, E7. split; [|split; [|split]]; auto.
+    + intros c. rewrite K. apply N1.
+    + intros aid b Hb. apply sa_nth_error_snoc in Hb. destruct Hb as [[_ Hb]|[_ ->]].
+      * eapply N3; eauto.
+      * repeat split; auto. rewrite Hr. apply Forall_forall. intros x Hx. apply in_map_iff in Hx.
+        destruct Hx as (? & <- & _). reflexivity.
+Qed.
+
+Lemma sa_append_arch_rows : forall s s' a,
+  w_archs s' = w_archs s ++ [a] ->
+  w_cfg s' = w_cfg s -> w_reg s' = w_reg s -> w_pool s' = w_pool s -> w_index s' = w_index s ->
+  w_istarget s' = w_istarget s -> w_tables s' = w_tables s -> w_issued s' = w_issued s ->
+  same_rows s s'.
+Proof.
+  intros s s' a EA E1 E2 E3 E4 E5 E6 E7. unfold same_rows. rewrite EA, E6. repeat split; auto.
+  - intros tid t H. exists t. unfold table_same_data. repeat split; auto.
+  - intros aid b H. exists b. split; [apply sa_nth_error_snoc_old; exact H|reflexivity].
+Qed.
+
 Lemma find_or_create_arch_spec : forall s m,
   St s -> (forall j, mk_get m j = true -> j < length (w_reg s)) ->
   exists aid s', find_or_create_arch m s = Ok aid s' /\ St s' /\ same_rows s s' /\ side_same s s' /\
                  frame_user s s' /\ w_tables s' = w_tables s /\
                  (exists a, nth_error (w_archs s') aid = Some a /\ a_mask a = m).
-Admitted.
+Proof.
+  intros s m HS Hm. unfold find_or_create_arch, bind, get. rewrite sa_find_arch_go.
+  destruct (sa_find_go m (w_archs s) 0) as [i|] eqn:F.
+  - apply sa_find_go_some in F. destruct F as (_ & a & Ha & Ma). rewrite Nat.sub_0_r in Ha.
+    exists i, s. unfold ret.
+    split; [reflexivity|]. split; [exact HS|]. split; [apply same_rows_refl|].
+    split; [apply sa_side_same_refl|]. split; [apply sa_frame_user_refl|]. split; [reflexivity|].
+    exists a. auto.
+  - pose proof (sa_find_go_none _ _ _ F) as Hu.
+    unfold create_archetype, bind, get, put, ret. eexists. eexists. split; [reflexivity|].
+    destruct HS as [HW HN]. pose proof HN as (N1 & _).
+    split; [|split; [|split; [|split; [|split]]]].
+    + eapply sa_append_arch_St with (s := s); try reflexivity; try (split; assumption); cbn; auto;
+        try (apply sa_fold_length; intros; apply updf_length);
+        rewrite sa_filter_map_false by (intros c; apply N1); reflexivity.
+    + eapply sa_append_arch_rows; reflexivity.
+    + unfold side_same. cbn. repeat split.
+    + unfold frame_user. cbn. repeat split.
+    + reflexivity.
+    + eexists. split; [cbn; apply sa_nth_error_snoc_new|reflexivity].
+Qed.
 
 (** get_or_create_table in a relation-free world: with no relation targets given it succeeds and
     returns the (single) table of the archetype; in every case invariant and [same_rows]. *)
+(** *** Symbolic execution helpers *)
+Lemma sa_bind_ok : forall S A B (m : M S A) (k : A -> M S B) s a s', m s = Ok a s' -> bind m k s = k a s'.
+Proof. intros. unfold bind. rewrite H. reflexivity. Qed.
+Lemma sa_bind_err : forall S A B (m : M S A) (k : A -> M S B) s e s', m s = Err e s' -> bind m k s = Err e s'.
+Proof. intros. unfold bind. rewrite H. reflexivity. Qed.
+Arguments sa_bind_ok {S A B m k s a s'} _.
+Arguments sa_bind_err {S A B m k s e s'} _.
+Lemma sa_getA_eq : forall s i a, nth_error (w_archs s) i = Some a -> getA i s = Ok a s.
+Proof. intros s i a H. unfold getA, bind, get, of_opt. rewrite H. reflexivity. Qed.
+Lemma sa_getT_eq : forall s i t, nth_error (w_tables s) i = Some t -> getT i s = Ok t s.
+Proof. intros s i t H. unfold getT, bind, get, of_opt. rewrite H. reflexivity. Qed.
+
+Lemma sa_is_rel_comp_false : forall s c, NoRel s -> is_rel_comp s c = false.
+Proof.
+  intros s c (N1 & _). specialize (N1 c). unfold kind_of in N1. unfold is_rel_comp.
+  destruct (nth_error (w_reg s) c); auto.
+Qed.
+
+Lemma sa_set_cheap_id : forall s : W, s <| w_cheap := w_cheap s |> = s.
+Proof. intros s. destruct s. reflexivity. Qed.
+
+(** *** cache_add_table only appends to [ce_tables] of existing entries *)
+Definition sa_cheap_rel (l l' : list centry) : Prop :=
+  forall i e, nth_error l i = Some e -> exists e', nth_error l' i = Some e' /\ ce_filter e' = ce_filter e.
+
+Lemma sa_cheap_rel_refl : forall l, sa_cheap_rel l l.
+Proof. intros l i e H. exists e. auto. Qed.
+Lemma sa_cheap_rel_trans : forall l1 l2 l3, sa_cheap_rel l1 l2 -> sa_cheap_rel l2 l3 -> sa_cheap_rel l1 l3.
+Proof.
+  intros l1 l2 l3 A B i e H. destruct (A i e H) as (e' & H' & F'). destruct (B i e' H') as (e'' & H'' & F'').
+  exists e''. split; congruence.
+Qed.
+
+Definition sa_cache_body (tid : nat) (t : table) (am : mask) (addr : nat) : MW unit :=
+    s <- get ;;
+    match nth_error (w_cheap s) addr with
+    | None => fail EIndex
+    | Some e =>
+        match nth_error (w_filters s) (ce_filter e) with
+        | None => fail EIndex
+        | Some f =>
+            if negb (filter_matches f am) then ret tt
+            else
+              mt <- (if tbl_has_rels t then of_opt (tbl_matches t (ce_rels e)) ENil else ret true) ;;
+              whenM mt (modify (fun s => s <| w_cheap ::= updf addr (fun e => e <| ce_tables ::= fun l => l ++ [tid] |>) |>))
+        end
+    end.
+
+Lemma sa_cache_add_table_unfold : forall tid t am,
+  cache_add_table tid t am = (s <- get ;; forM_ (w_centries s) (sa_cache_body tid t am)).
+Proof. reflexivity. Qed.
+
+Lemma sa_cache_body_step : forall tid t am addr s e,
+  t_rels t = [] -> nth_error (w_cheap s) addr = Some e -> ce_filter e < length (w_filters s) ->
+  sa_cache_body tid t am addr s = Ok tt s \/
+  sa_cache_body tid t am addr s =
+    Ok tt (s <| w_cheap ::= updf addr (fun e => e <| ce_tables ::= fun l => l ++ [tid] |>) |>).
+Proof.
+  intros tid t am addr s e Ht He Hf.
+  destruct (nth_error (w_filters s) (ce_filter e)) as [f|] eqn:E; [|apply nth_error_None in E; lia].
+  unfold sa_cache_body, bind, get. rewrite He, E. unfold tbl_has_rels. rewrite Ht.
+  destruct (negb (filter_matches f am)); [left; reflexivity|right; reflexivity].
+Qed.
+
+Lemma sa_cache_loop : forall tid t am L s,
+  t_rels t = [] ->
+  (forall addr, In addr L -> exists e, nth_error (w_cheap s) addr = Some e /\ ce_filter e < length (w_filters s)) ->
+  exists l', forM_ L (sa_cache_body tid t am) s = Ok tt (s <| w_cheap := l' |>) /\ sa_cheap_rel (w_cheap s) l'.
+Proof.
+  intros tid t am L. induction L as [|addr L IH]; intros s Ht H.
+  - exists (w_cheap s). cbn [forM_]. unfold ret. rewrite sa_set_cheap_id. split; [reflexivity|apply sa_cheap_rel_refl].
+  - cbn [forM_]. destruct (H addr (or_introl eq_refl)) as (e & He & Hf).
+    destruct (sa_cache_body_step tid t am addr s e Ht He Hf) as [E|E]; rewrite (sa_bind_ok E).
+    + apply IH; auto. intros a Ha. apply H. right; exact Ha.
+    + set (s1 := s <| w_cheap ::= updf addr (fun e0 => e0 <| ce_tables ::= fun l => l ++ [tid] |>) |>).
+      assert (R : sa_cheap_rel (w_cheap s) (w_cheap s1)).
+      { intros i x Hx. unfold s1. cbn. rewrite nth_error_updf. destruct (Nat.eqb_spec addr i).
+        - rewrite Hx. simpl. eexists. split; [reflexivity|]. reflexivity.
+        - exists x. auto. }
+      destruct (IH s1 Ht) as (l' & E' & R').
+      { intros a Ha. destruct (H a (or_intror Ha)) as (x & Hx & Fx). destruct (R a x Hx) as (x' & Hx' & Fx').
+        exists x'. split; [exact Hx'|]. rewrite Fx'. exact Fx. }
+      exists l'. split; [rewrite E'; reflexivity|]. eapply sa_cheap_rel_trans; eauto.
+Qed.
+
+Lemma sa_cache_add_table_spec : forall tid t am s,
+  t_rels t = [] ->
+  (forall addr, In addr (w_centries s) -> exists e, nth_error (w_cheap s) addr = Some e /\ ce_filter e < length (w_filters s)) ->
+  exists l', cache_add_table tid t am s = Ok tt (s <| w_cheap := l' |>) /\ sa_cheap_rel (w_cheap s) l'.
+Proof.
+  intros tid t am s Ht H. rewrite sa_cache_add_table_unfold. unfold bind at 1. unfold get at 1.
+  apply sa_cache_loop; auto.
+Qed.
+
+(** *** Appending the first table of a relation-free archetype *)
+Definition sa_arch_add (tid : nat) (a : arch) : arch := a <| a_tables ::= fun l => l ++ [tid] |>.
+
+Lemma sa_archs_after_add : forall (l : list arch) aid a tid i b',
+  nth_error l aid = Some a -> a_tables a = [] ->
+  nth_error (updf aid (sa_arch_add tid) l) i = Some b' ->
+  exists b, nth_error l i = Some b /\ a_mask b' = a_mask b /\ a_comps b' = a_comps b /\
+    a_isrel b' = a_isrel b /\ a_free b' = a_free b /\ a_reltabs b' = a_reltabs b /\
+    a_tgttabs b' = a_tgttabs b /\ a_numrel b' = a_numrel b /\
+    ((i <> aid /\ b' = b) \/ (i = aid /\ b = a /\ a_tables b' = [tid])).
+Proof.
+  intros l aid a tid i b' Ha Ht H. rewrite nth_error_updf in H. destruct (Nat.eqb_spec aid i) as [E|E].
+  - subst i. rewrite Ha in H. simpl in H. inversion H; subst b'. exists a. unfold sa_arch_add. cbn.
+    rewrite Ht. repeat split; auto.
+  - exists b'. repeat split; auto.
+Qed.
+
+Lemma sa_archs_after_add_old : forall (l : list arch) aid tid i b,
+  nth_error l i = Some b ->
+  exists b', nth_error (updf aid (sa_arch_add tid) l) i = Some b' /\ a_mask b' = a_mask b.
+Proof.
+  intros l aid tid i b H. rewrite nth_error_updf. destruct (Nat.eqb_spec aid i) as [E|E].
+  - rewrite H. simpl. eexists. split; [reflexivity|reflexivity].
+  - exists b. auto.
+Qed.
+
+Lemma sa_append_table_St : forall s s' aid a t cap,
+  St s -> nth_error (w_archs s) aid = Some a -> a_tables a = [] ->
+  w_tables s' = w_tables s ++ [t] ->
+  w_archs s' = updf aid (sa_arch_add (length (w_tables s))) (w_archs s) ->
+  sa_cheap_rel (w_cheap s) (w_cheap s') ->
+  w_cfg s' = w_cfg s -> w_reg s' = w_reg s -> w_pool s' = w_pool s -> w_index s' = w_index s ->
+  w_istarget s' = w_istarget s -> w_relarchs s' = w_relarchs s ->
+  w_compindex s' = w_compindex s -> w_archcount s' = w_archcount s ->
+  w_centries s' = w_centries s -> w_filters s' = w_filters s ->
+  t = new_table aid a (map (kind_of s) (a_comps a)) cap (repeat zero_ent (length (a_comps a))) [] ->
+  St s'.
+Proof.
+  intros s s' aid a t cap [HW HN] Ha Hta ET EA RC E1 E2 E3 E4 E5 E7 E8 E9 E11 E12 Et.
+  assert (K : forall c, kind_of s' c = kind_of s c) by (apply sa_kind_of_ext; auto).
+  assert (L : forall e, loc s' e = loc s e) by (apply sa_loc_ext; auto).
+  assert (KM : forall l, map (kind_of s') l = map (kind_of s) l) by (intros; apply map_ext; auto).
+  destruct HN as (N1 & N2 & N3 & N4).
+  set (tid := length (w_tables s)) in *.
+  assert (AA := fun i b' => sa_archs_after_add (w_archs s) aid a tid i b' Ha Hta).
+  assert (T1 : t_arch t = aid) by (subst t; reflexivity).
+  assert (T2 : t_ids t = a_comps a) by (subst t; reflexivity).
+  assert (T3 : t_len t = 0) by (subst t; reflexivity).
+  assert (Anew : exists a', nth_error (updf aid (sa_arch_add tid) (w_archs s)) aid = Some a' /\ a_comps a' = a_comps a /\ a_tables a' = [tid]).
+  { rewrite nth_error_updf, Nat.eqb_refl, Ha. simpl. eexists. split; [reflexivity|].
+    unfold sa_arch_add; cbn. rewrite Hta. auto. }
+  split.
+  - destruct HW. constructor; rewrite ?ET, ?EA, ?E1, ?E2, ?E3, ?E4, ?E5, ?E8, ?E9, ?E11, ?E12; auto.
+    + apply Forall_app. split; [exact wf_tables|]. constructor; [|constructor].
+      subst t. apply new_table_ok. apply map_length.
+    + intros i x Hx. apply sa_nth_error_snoc in Hx. destruct Hx as [[_ Hx]|[_ ->]].
+      * destruct (wf_layout i x Hx) as (b & B1 & B2 & B3 & B4).
+        destruct (sa_archs_after_add_old (w_archs s) aid tid _ _ B1) as (b' & B1' & _).
+        destruct (AA _ _ B1') as (b0 & B0 & _ & C & _). rewrite B1 in B0. inversion B0; subst b0.
+        exists b'. rewrite KM. rewrite C. auto.
+      * destruct Anew as (a' & A1 & A2 & A3). exists a'. rewrite T1, T2, KM. subst t. cbn.
+        rewrite repeat_length. auto.
+    + intros i b' Hb'. destruct (AA _ _ Hb') as (b & Hb & M & C & I & F & R & G & Nn & _).
+      destruct (wf_arch_comps i b Hb) as (A1 & A2 & A3 & A4 & A5).
+      rewrite M, C, I, R, Nn. repeat split; auto. rewrite A3. apply map_ext. intros c. rewrite K. reflexivity.
+    + intros i j x y Hx Hy Mxy. destruct (AA _ _ Hx) as (x0 & Hx0 & Mx & _). destruct (AA _ _ Hy) as (y0 & Hy0 & My & _).
+      apply (wf_arch_unique i j x0 y0 Hx0 Hy0). congruence.
+    + intros i b' tid0 Hb'. destruct (AA _ _ Hb') as (b & Hb & M & C & I & F & R & G & Nn & D).
+      rewrite F, R, G. destruct D as [[Ne ->]|[-> [-> Tb]]].
+      * intros Hin. destruct (wf_arch_tables i b tid0 Hb Hin) as (x & Hx & Ax). exists x.
+        split; [apply sa_nth_error_snoc_old; exact Hx|exact Ax].
+      * rewrite Tb. intros [[<-|[]]|Hin].
+        -- exists t. split; [apply sa_nth_error_snoc_new|exact T1].
+        -- destruct (wf_arch_tables aid a tid0 Hb) as (x & Hx & Ax); [right; exact Hin|]. exists x.
+           split; [apply sa_nth_error_snoc_old; exact Hx|exact Ax].
+    + intros i b' Hb'. destruct (AA _ _ Hb') as (b & Hb & M & C & I & F & R & G & Nn & D).
+      rewrite Nn. destruct D as [[Ne ->]|[-> [-> Tb]]].
+      * apply wf_arch_norel_table with (aid := i). exact Hb.
+      * rewrite Tb. simpl. lia.
+    + destruct wf_arch0 as (a0 & A0 & M0 & t0 & T0 & TA0).
+      destruct (sa_archs_after_add_old (w_archs s) aid tid _ _ A0) as (b' & B1' & Mb).
+      exists b'. split; [exact B1'|]. split; [congruence|]. exists t0. split; [apply sa_nth_error_snoc_old; exact T0|exact TA0].
+    + intros i x r Hx Hr. rewrite L. apply sa_nth_error_snoc in Hx. destruct Hx as [[_ Hx]|[_ ->]]; [auto|lia].
+    + intros id i r Hi. destruct (wf_index id i r Hi) as (x & Hx & P). exists x.
+      split; [apply sa_nth_error_snoc_old; exact Hx|exact P].
+    + intros addr Hin. destruct (wf_cache addr Hin) as (e & He & Fe). destruct (RC _ _ He) as (e' & He' & Fe').
+      exists e'. split; [exact He'|]. rewrite Fe'. exact Fe.
+  - unfold NoRel. rewrite ET, EA, E7. split; [|split; [|split]]; auto.
+    + intros c. rewrite K. apply N1.
+    + intros i x Hx. apply sa_nth_error_snoc in Hx. destruct Hx as [[_ Hx]|[_ ->]]; [eauto|]. subst t. auto.
+    + intros i b' Hb'. destruct (AA _ _ Hb') as (b & Hb & M & C & I & F & R & G & Nn & D).
+      rewrite F, R, G, Nn. eapply N3; eauto.
+Qed.
+
+Lemma sa_append_table_rows : forall s s' aid t,
+  w_tables s' = w_tables s ++ [t] ->
+  w_archs s' = updf aid (sa_arch_add (length (w_tables s))) (w_archs s) ->
+  w_cfg s' = w_cfg s -> w_reg s' = w_reg s -> w_pool s' = w_pool s -> w_index s' = w_index s ->
+  w_istarget s' = w_istarget s -> w_issued s' = w_issued s ->
+  same_rows s s'.
+Proof.
+  intros s s' aid t ET EA E1 E2 E3 E4 E5 E6. unfold same_rows. rewrite ET, EA. repeat split; auto.
+  - intros tid x H. exists x. split; [apply sa_nth_error_snoc_old; exact H|]. unfold table_same_data. repeat split; auto.
+  - intros i b H. apply sa_archs_after_add_old. exact H.
+Qed.
+
+Lemma sa_check_rel_fails : forall s r, NoRel s -> check_rel r s = Err ENotRelation s.
+Proof.
+  intros s r HN. unfold check_rel, bind, get. rewrite sa_is_rel_comp_false by exact HN. reflexivity.
+Qed.
+
+(** create_table for an archetype without tables, no relation targets *)
+Lemma sa_create_table_nil : forall s aid a,
+  St s -> nth_error (w_archs s) aid = Some a -> a_tables a = [] ->
+  exists s', create_table aid [] s = Ok (length (w_tables s)) s' /\
+    St s' /\ same_rows s s' /\ side_same s s' /\ frame_user s s' /\
+    (exists t, nth_error (w_tables s') (length (w_tables s)) = Some t /\ t_arch t = aid) /\
+    (exists a', nth_error (w_archs s') aid = Some a' /\ a_mask a' = a_mask a).
+Proof.
+  intros s aid a HS Ha Hta. pose proof HS as [HW HN]. pose proof HN as (N1 & N2 & N3 & N4).
+  destruct (N3 aid a Ha) as (Hf & Hn & Hg & Hr).
+  unfold create_table.
+  rewrite (sa_bind_ok (sa_getA_eq _ _ _ Ha)). rewrite Hn. cbn [length Nat.ltb Nat.leb negb guard].
+  rewrite (sa_bind_ok (m := ret tt) (s := s) eq_refl).
+  cbn [place_targets of_opt]. rewrite (sa_bind_ok (m := ret _) (s := s) eq_refl).
+  cbn [forM_]. rewrite (sa_bind_ok (m := ret tt) (s := s) eq_refl).
+  rewrite (sa_bind_ok (m := get) (s := s) eq_refl).
+  rewrite Hf. cbn [rev].
+  unfold arch_has_rels. rewrite Hn. cbn [Nat.eqb negb].
+  set (t := new_table aid a (map (kind_of s) (a_comps a)) (cf_cap (w_cfg s)) (repeat zero_ent (length (a_comps a))) []).
+  set (tid := length (w_tables s)).
+  set (s1 := s <| w_tables ::= fun l => l ++ [t] |>).
+  assert (E1 : (modify (fun s0 : wstate => s0 <| w_tables ::= fun l => l ++ [t] |>) ;;; ret tid) s = Ok tid s1) by reflexivity.
+  rewrite (sa_bind_ok E1).
+  assert (T1 : nth_error (w_tables s1) tid = Some t) by (unfold s1; cbn; apply sa_nth_error_snoc_new).
+  rewrite (sa_bind_ok (sa_getT_eq _ _ _ T1)).
+  set (s2 := s1 <| w_archs ::= updf aid (fun a0 => arch_add_table a0 tid t) |>).
+  assert (E2 : modA aid (fun a0 => arch_add_table a0 tid t) s1 = Ok tt s2) by reflexivity.
+  rewrite (sa_bind_ok E2).
+  assert (EA : w_archs s2 = updf aid (sa_arch_add tid) (w_archs s)).
+  { unfold s2, s1. cbn. unfold updf. rewrite Ha. f_equal. unfold arch_add_table, arch_has_rels. rewrite Hn. reflexivity. }
+  destruct (sa_cache_add_table_spec tid t (a_mask a) s2) as (l' & E3 & RC).
+  { reflexivity. }
+  { intros addr Hin. apply (wf_cache _ HW addr Hin). }
+  rewrite (sa_bind_ok E3). unfold ret.
+  set (s3 := s2 <| w_cheap := l' |>).
+  exists s3. split; [reflexivity|].
+  assert (EA3 : w_archs s3 = updf aid (sa_arch_add tid) (w_archs s)) by exact EA.
+  assert (ET3 : w_tables s3 = w_tables s ++ [t]) by reflexivity.
+  split; [|split; [|split; [|split; [|split]]]].
+  - eapply (sa_append_table_St s s3 aid a t); eauto; reflexivity.
+  - eapply (sa_append_table_rows s s3 aid t); eauto; reflexivity.
+  - unfold side_same. cbn. repeat split.
+  - unfold frame_user. cbn. repeat split.
+  - exists t. rewrite ET3. split; [apply sa_nth_error_snoc_new|reflexivity].
+  - rewrite EA3. destruct (sa_archs_after_add_old (w_archs s) aid tid aid a Ha) as (b' & B1 & B2). exists b'. auto.
+Qed.
+
 Lemma get_or_create_table_spec : forall s aid a rels,
   St s -> nth_error (w_archs s) aid = Some a ->
   match get_or_create_table aid rels s with
@@ -91,7 +699,31 @@ Lemma get_or_create_table_spec : forall s aid a rels,
                  (exists a', nth_error (w_archs s') aid = Some a' /\ a_mask a' = a_mask a)
   | Err _ s' => St s' /\ same_rows s s' /\ side_same s s' /\ frame_user s s' /\ rels <> []
   end.
-Admitted.
+Proof.
+  intros s aid a rels HS Ha. pose proof HS as [HW HN]. pose proof HN as (N1 & N2 & N3 & N4).
+  destruct (N3 aid a Ha) as (Hf & Hn & Hg & Hr).
+  unfold get_or_create_table. rewrite (sa_bind_ok (sa_getA_eq _ _ _ Ha)).
+  unfold arch_get_table. destruct (a_tables a) as [|t0 tl] eqn:Hta.
+  - rewrite (sa_bind_ok (m := ret None) (s := s) eq_refl).
+    destruct rels as [|r rest].
+    + destruct (sa_create_table_nil s aid a HS Ha Hta) as (s' & E & P). rewrite E. exact P.
+    + assert (E : exists e, create_table aid (r :: rest) s = Err e s).
+      { unfold create_table. rewrite (sa_bind_ok (sa_getA_eq _ _ _ Ha)). rewrite Hn.
+        cbn [Nat.ltb Nat.leb negb guard]. rewrite (sa_bind_ok (m := ret tt) (s := s) eq_refl).
+        destruct (place_targets a (r :: rest) (repeat zero_ent (length (a_comps a)))) as [tg|].
+        - cbn [of_opt]. rewrite (sa_bind_ok (m := ret tg) (s := s) eq_refl).
+          cbn [forM_]. exists ENotRelation. apply sa_bind_err. apply sa_bind_err. apply sa_check_rel_fails. exact HN.
+        - exists EIndex. reflexivity. }
+      destruct E as (e & ->).
+      split; [exact HS|]. split; [apply same_rows_refl|]. split; [apply sa_side_same_refl|].
+      split; [apply sa_frame_user_refl|]. discriminate.
+  - unfold arch_has_rels. rewrite Hn. cbn [Nat.eqb negb]. rewrite (sa_bind_ok (m := ret (Some t0)) (s := s) eq_refl).
+    unfold ret.
+    split; [exact HS|]. split; [apply same_rows_refl|]. split; [apply sa_side_same_refl|].
+    split; [apply sa_frame_user_refl|]. split.
+    + apply (wf_arch_tables _ HW aid a t0 Ha). left. rewrite Hta. left. reflexivity.
+    + exists a. auto.
+Qed.
 
 (** The table finders: resulting mask = old mask plus / minus the components; the returned table
     belongs to the archetype with that mask. [rels = []] throughout (relation-free tier). *)
@@ -100,6 +732,104 @@ Definition finder_post (s : W) (m : mask) (tid aid : nat) (s' : W) : Prop :=
   (exists t a, nth_error (w_tables s') tid = Some t /\ t_arch t = aid /\
                nth_error (w_archs s') aid = Some a /\ a_mask a = m).
 Definition finder_err (s s' : W) : Prop := St s' /\ same_rows s s' /\ side_same s s' /\ frame_user s s'.
+
+(** *** The graph walks *)
+Lemma sa_memb_cons : forall j c t, memb j (c :: t) = (Nat.eqb c j || memb j t)%bool.
+Proof.
+  intros j c t. unfold memb. simpl. destruct (Nat.eqb c j); [reflexivity|].
+  destruct (index_of j t); reflexivity.
+Qed.
+
+Lemma sa_memb_in : forall x l, memb x l = true <-> In x l.
+Proof.
+  intros x l. unfold memb. split.
+  - destruct (index_of x l) eqn:E; [|discriminate]. intros _. eapply sa_index_of_some_in; eauto.
+  - intros H. apply sa_in_index_of in H. destruct H as (i & ->). reflexivity.
+Qed.
+
+Lemma sa_gf_add_spec : forall start ids m s,
+  match gf_add start ids m s with
+  | Ok m' s' => s' = s /\ (forall j, mk_get m' j = (mk_get m j || memb j ids)%bool) /\ NoDup ids /\
+                (forall c, In c ids -> mk_get m c = false) /\
+                (forall st, start = Some st -> forall c, In c ids -> mk_get st c = false)
+  | Err _ s' => s' = s /\ (start = None -> ~ (NoDup ids /\ forall c, In c ids -> mk_get m c = false))
+  end.
+Proof.
+  intros start ids. induction ids as [|c t IH]; intros m s.
+  - simpl. unfold ret. split; [reflexivity|]. split; [intros j; rewrite orb_false_r; reflexivity|].
+    split; [constructor|]. split; [intros c []|intros st _ c []].
+  - cbn [gf_add]. destruct (mk_get m c) eqn:Gc.
+    + unfold fail. split; [reflexivity|]. intros _ [_ H]. rewrite H in Gc by (left; reflexivity). discriminate.
+    + destruct (match start with Some st => mk_get st c | None => false end) eqn:Sc.
+      * unfold fail. split; [reflexivity|]. intros ->. discriminate.
+      * specialize (IH (mk_set m c) s). destruct (gf_add start t (mk_set m c) s) as [m' s'|e s'].
+        -- destruct IH as (-> & Hm & ND & Hf & Hs). split; [reflexivity|].
+           assert (Hnc : forall c', In c' t -> c' <> c /\ mk_get m c' = false).
+           { intros c' Hc'. specialize (Hf c' Hc'). rewrite mk_get_set in Hf. apply orb_false_iff in Hf.
+             destruct Hf as [Hf1 Hf2]. apply Nat.eqb_neq in Hf1. split; [congruence|exact Hf2]. }
+           split; [|split; [|split]].
+           ++ intros j. rewrite Hm, mk_get_set, sa_memb_cons.
+              destruct (Nat.eqb c j), (mk_get m j), (memb j t); reflexivity.
+           ++ constructor; [|exact ND]. intros Hin. apply Hnc in Hin. destruct Hin as [Hin _]. congruence.
+           ++ intros c' [<-|Hc']; [exact Gc|apply Hnc; exact Hc'].
+           ++ intros st -> c' [<-|Hc']; [exact Sc|eapply Hs; eauto].
+        -- destruct IH as (-> & Hn). split; [reflexivity|]. intros Hs [ND Hf]. apply (Hn Hs).
+           inversion ND; subst. split; [assumption|]. intros c' Hc'. rewrite mk_get_set.
+           apply orb_false_iff. split; [apply Nat.eqb_neq; intros ->; contradiction|apply Hf; right; exact Hc'].
+Qed.
+
+Lemma sa_gf_remove_spec : forall ids m s,
+  match gf_remove ids m s with
+  | Ok m' s' => s' = s /\ (forall j, mk_get m' j = (mk_get m j && negb (memb j ids))%bool) /\ NoDup ids /\
+                (forall c, In c ids -> mk_get m c = true)
+  | Err _ s' => s' = s /\ ~ (NoDup ids /\ forall c, In c ids -> mk_get m c = true)
+  end.
+Proof.
+  intros ids. induction ids as [|c t IH]; intros m s.
+  - simpl. unfold ret. split; [reflexivity|]. split; [intros j; rewrite andb_true_r; reflexivity|].
+    split; [constructor|intros c []].
+  - cbn [gf_remove]. destruct (mk_get m c) eqn:Gc.
+    + specialize (IH (mk_clear m c) s). destruct (gf_remove t (mk_clear m c) s) as [m' s'|e s'].
+      * destruct IH as (-> & Hm & ND & Hf). split; [reflexivity|].
+        assert (Hnc : forall c', In c' t -> c' <> c /\ mk_get m c' = true).
+        { intros c' Hc'. specialize (Hf c' Hc'). rewrite mk_get_clear in Hf. apply andb_true_iff in Hf.
+          destruct Hf as [Hf1 Hf2]. apply negb_true_iff, Nat.eqb_neq in Hf1. split; [congruence|exact Hf2]. }
+        split; [|split].
+        -- intros j. rewrite Hm, mk_get_clear, sa_memb_cons.
+           destruct (Nat.eqb c j), (mk_get m j), (memb j t); reflexivity.
+        -- constructor; [|exact ND]. intros Hin. apply Hnc in Hin. destruct Hin as [Hin _]. congruence.
+        -- intros c' [<-|Hc']; [exact Gc|apply Hnc; exact Hc'].
+      * destruct IH as (-> & Hn). split; [reflexivity|]. intros [ND Hf]. apply Hn.
+        inversion ND; subst. split; [assumption|]. intros c' Hc'. rewrite mk_get_clear.
+        apply andb_true_iff. split; [apply negb_true_iff, Nat.eqb_neq; intros ->; contradiction|apply Hf; right; exact Hc'].
+    + unfold fail. split; [reflexivity|]. intros [_ H]. rewrite H in Gc by (left; reflexivity). discriminate.
+Qed.
+
+Lemma sa_finder_err_refl : forall s, St s -> finder_err s s.
+Proof.
+  intros s HS. split; [exact HS|]. split; [apply same_rows_refl|]. split; [apply sa_side_same_refl|apply sa_frame_user_refl].
+Qed.
+
+(** The common tail of the three finders *)
+Lemma sa_finder_tail : forall s old ot m,
+  St s -> nth_error (w_tables s) old = Some ot -> (forall j, mk_get m j = true -> j < length (w_reg s)) ->
+  t_rels ot = [] /\
+  exists aid s1 a, find_or_create_arch m s = Ok aid s1 /\ getA aid s1 = Ok a s1 /\ a_mask a = m /\
+    getT old s1 = Ok ot s1 /\
+    exists tid s2, get_or_create_table aid [] s1 = Ok tid s2 /\ finder_post s m tid aid s2.
+Proof.
+  intros s old ot m HS Hot Hm. split; [apply HS in Hot; apply Hot|].
+  destruct (find_or_create_arch_spec s m HS Hm) as (aid & s1 & E1 & HS1 & R1 & D1 & F1 & T1 & a & Ha & Ma).
+  exists aid, s1, a. split; [exact E1|]. split; [apply sa_getA_eq; exact Ha|]. split; [exact Ma|].
+  split; [apply sa_getT_eq; rewrite T1; exact Hot|].
+  pose proof (get_or_create_table_spec s1 aid a [] HS1 Ha) as G.
+  destruct (get_or_create_table aid [] s1) as [tid s2|e s2].
+  - destruct G as (HS2 & R2 & D2 & F2 & (t & Ht & At) & (a' & Ha' & Ma')).
+    exists tid, s2. split; [reflexivity|]. unfold finder_post.
+    split; [exact HS2|]. split; [eapply same_rows_trans; eauto|]. split; [eapply sa_side_same_trans; eauto|].
+    split; [eapply sa_frame_user_trans; eauto|]. exists t, a'. repeat split; auto. congruence.
+  - destruct G as (_ & _ & _ & _ & G). congruence.
+Qed.
 
 Lemma find_or_create_table_add_spec : forall s old ot add m0,
   St s -> nth_error (w_tables s) old = Some ot ->
@@ -111,7 +841,17 @@ Lemma find_or_create_table_add_spec : forall s old ot add m0,
       NoDup add /\ (forall c, In c add -> mk_get m0 c = false)
   | Err _ s' => finder_err s s' /\ ~ (NoDup add /\ forall c, In c add -> mk_get m0 c = false)
   end.
-Admitted.
+Proof.
+  intros s old ot add m0 HS Hot Hm0 Hadd. unfold find_or_create_table_add.
+  pose proof (sa_gf_add_spec None add m0 s) as G.
+  destruct (gf_add None add m0 s) as [m s0|e s0] eqn:EG.
+  - destruct G as (-> & Hm & ND & Hf & _). rewrite (sa_bind_ok EG).
+    assert (Hb : forall j, mk_get m j = true -> j < length (w_reg s)).
+    { intros j Hj. rewrite Hm in Hj. apply orb_true_iff in Hj. destruct Hj as [Hj|Hj]; [auto|apply Hadd, sa_memb_in; exact Hj]. }
+    destruct (sa_finder_tail s old ot m HS Hot Hb) as (Hr & aid & s1 & a & E1 & E2 & Ma & E3 & tid & s2 & E4 & P).
+    rewrite (sa_bind_ok E1), (sa_bind_ok E3). rewrite Hr. rewrite (sa_bind_ok E4). unfold ret. auto.
+  - destruct G as (-> & Hn). rewrite (sa_bind_err EG). split; [apply sa_finder_err_refl; exact HS|auto].
+Qed.
 
 Lemma find_or_create_table_remove_spec : forall s old ot rem m0,
   St s -> nth_error (w_tables s) old = Some ot ->
@@ -123,7 +863,18 @@ Lemma find_or_create_table_remove_spec : forall s old ot rem m0,
       NoDup rem /\ (forall c, In c rem -> mk_get m0 c = true)
   | Err _ s' => finder_err s s' /\ ~ (NoDup rem /\ forall c, In c rem -> mk_get m0 c = true)
   end.
-Admitted.
+Proof.
+  intros s old ot rem m0 HS Hot Hm0. unfold find_or_create_table_remove.
+  pose proof (sa_gf_remove_spec rem m0 s) as G.
+  destruct (gf_remove rem m0 s) as [m s0|e s0] eqn:EG.
+  - destruct G as (-> & Hm & ND & Hf). rewrite (sa_bind_ok EG).
+    assert (Hb : forall j, mk_get m j = true -> j < length (w_reg s)).
+    { intros j Hj. rewrite Hm in Hj. apply andb_true_iff in Hj. destruct Hj as [Hj _]. auto. }
+    destruct (sa_finder_tail s old ot m HS Hot Hb) as (Hr & aid & s1 & a & E1 & E2 & Ma & E3 & tid & s2 & E4 & P).
+    rewrite (sa_bind_ok E1), (sa_bind_ok E2), (sa_bind_ok E3). rewrite Hr. cbn [surviving_rels filter existsb].
+    rewrite (sa_bind_ok E4). unfold ret. auto.
+  - destruct G as (-> & Hn). rewrite (sa_bind_err EG). split; [apply sa_finder_err_refl; exact HS|auto].
+Qed.
 
 Lemma find_or_create_table_spec : forall s old ot add rem m0,
   St s -> nth_error (w_tables s) old = Some ot ->
@@ -136,9 +887,51 @@ Lemma find_or_create_table_spec : forall s old ot add rem m0,
       (forall c, In c add -> mk_get m0 c = false)
   | Err _ s' => finder_err s s'
   end.
-Admitted.
+Proof.
+  intros s old ot add rem m0 HS Hot Hm0 Hadd. unfold find_or_create_table.
+  pose proof (sa_gf_remove_spec rem m0 s) as G.
+  destruct (gf_remove rem m0 s) as [m1 s0|e s0] eqn:EG.
+  - destruct G as (-> & Hm1 & NDr & Hfr). rewrite (sa_bind_ok EG).
+    pose proof (sa_gf_add_spec (Some m0) add m1 s) as G.
+    destruct (gf_add (Some m0) add m1 s) as [m s0|e s0] eqn:EG2.
+    + destruct G as (-> & Hm & NDa & Hfa & Hsa). rewrite (sa_bind_ok EG2).
+      assert (Hb : forall j, mk_get m j = true -> j < length (w_reg s)).
+      { intros j Hj. rewrite Hm, Hm1 in Hj. apply orb_true_iff in Hj. destruct Hj as [Hj|Hj].
+        - apply andb_true_iff in Hj. destruct Hj as [Hj _]. auto.
+        - apply Hadd, sa_memb_in; exact Hj. }
+      destruct (sa_finder_tail s old ot m HS Hot Hb) as (Hr & aid & s1 & a & E1 & E2 & Ma & E3 & tid & s2 & E4 & P).
+      rewrite (sa_bind_ok E1), (sa_bind_ok E2), (sa_bind_ok E3). rewrite Hr.
+      assert (X : (match rem with
+                   | [] => (@nil rel, false)
+                   | _ :: _ => let '(sv, rm) := surviving_rels a [] in (sv ++ [], rm)
+                   end) = ([], false)) by (destruct rem; reflexivity).
+      rewrite X. rewrite (sa_bind_ok E4). unfold ret.
+      split; [exact P|]. split; [reflexivity|]. split; [|split; [|split; [|split]]]; auto.
+      intros j. rewrite Hm, Hm1. reflexivity.
+    + destruct G as (-> & _). rewrite (sa_bind_err EG2). apply sa_finder_err_refl; exact HS.
+  - destruct G as (-> & Hn). rewrite (sa_bind_err EG). apply sa_finder_err_refl; exact HS.
+Qed.
 
 (** Pool operations against the invariant's free list. *)
+(** *** The pool's free list *)
+Lemma sa_nth_error_upd_eq : forall A (l : list A) i x, i < length l -> nth_error (upd i x l) i = Some x.
+Proof.
+  intros A l i x H. rewrite nth_error_upd, Nat.eqb_refl.
+  destruct (nth_error l i) eqn:E; [reflexivity|]. apply nth_error_None in E. lia.
+Qed.
+
+Lemma sa_nth_error_upd_ne : forall A (l : list A) i j x, i <> j -> nth_error (upd i x l) j = nth_error l j.
+Proof. intros A l i j x H. rewrite nth_error_upd. apply Nat.eqb_neq in H. rewrite H. reflexivity. Qed.
+
+Lemma sa_chain_upd_other : forall l i x fl nx, ~ In i fl -> chain l nx fl -> chain (upd i x l) nx fl.
+Proof.
+  intros l i x fl. induction fl as [|k rest IH]; intros nx Hn H; [exact I|].
+  simpl in H |- *. destruct H as (E & H1 & H2). split; [exact E|]. split.
+  - destruct rest as [|j r]; [exact I|]. destruct H1 as (g & Hg). exists g.
+    rewrite sa_nth_error_upd_ne; [exact Hg|]. intros ->. apply Hn. left; reflexivity.
+  - apply IH; [|exact H2]. intros Hin. apply Hn. right; exact Hin.
+Qed.
+
 Lemma pool_get_spec : forall p fl, pool_ok p fl ->
   let '(e, p') := pool_get p in
   2 <= fst e /\
@@ -146,23 +939,157 @@ Lemma pool_get_spec : forall p fl, pool_ok p fl ->
    (exists rest, fl = fst e :: rest /\ fst e < length (pe p) /\ length (pe p') = length (pe p) /\
                  pool_ok p' rest /\ nth_error (pe p') (fst e) = Some e /\
                  (forall i, i <> fst e -> nth_error (pe p') i = nth_error (pe p) i))).
-Admitted.
+Proof.
+  intros p fl (H1 & H2 & H3 & H4 & H5). unfold pool_get. destruct (Nat.eqb_spec (pavail p) 0) as [E|E].
+  - simpl. split; [exact H1|]. left. split; [exact E|]. destruct fl; [|simpl in H2; lia].
+    split; [reflexivity|]. split; [reflexivity|]. split; [reflexivity|].
+    unfold pool_ok; simpl. rewrite app_length. simpl. repeat split; try lia; try constructor; try (intros ? []); try contradiction.
+  - destruct fl as [|i rest]; [simpl in H2; lia|]. simpl in H5. destruct H5 as (Ei & Hl & Hc). subst i.
+    destruct (H4 (pnext p) (or_introl eq_refl)) as [B1 B2].
+    destruct (nth_error (pe p) (pnext p)) as [[nid g]|] eqn:En; [|apply nth_error_None in En; lia].
+    simpl. split; [exact B1|]. right. exists rest. split; [reflexivity|]. split; [exact B2|].
+    split; [apply upd_length|]. inversion H3; subst. split.
+    + unfold pool_ok; simpl. rewrite upd_length. split; [exact H1|]. split; [simpl in H2; lia|].
+      split; [assumption|]. split; [intros i Hi; apply H4; right; exact Hi|].
+      destruct rest as [|j r]; [exact I|]. destruct Hl as (g' & Hg'). inversion Hg'; subst.
+      apply sa_chain_upd_other; assumption.
+    + split; [apply sa_nth_error_upd_eq; exact B2|]. intros i Hi. apply sa_nth_error_upd_ne. congruence.
+Qed.
 
 Lemma pool_recycle_spec : forall p fl e, pool_ok p fl -> 2 <= fst e -> nth_error (pe p) (fst e) = Some e -> ~ In (fst e) fl ->
   exists p', pool_recycle p e = Some p' /\ pool_ok p' (fst e :: fl) /\ length (pe p') = length (pe p) /\
              (forall i, i <> fst e -> nth_error (pe p') i = nth_error (pe p) i) /\
              (exists l, nth_error (pe p') (fst e) = Some (l, N.modulo (snd e + 1) 4294967296)).
-Admitted.
+Proof.
+  intros p fl e (H1 & H2 & H3 & H4 & H5) He Hn Hnin. unfold pool_recycle, reserved.
+  destruct (Nat.ltb_spec (fst e) 2) as [L|L]; [lia|]. rewrite Hn. destruct e as [id g]. simpl in *.
+  assert (Hlt : id < length (pe p)) by (apply nth_error_Some; rewrite Hn; discriminate).
+  eexists. split; [reflexivity|]. simpl. split; [|split; [apply upd_length|split]].
+  - unfold pool_ok; simpl. rewrite upd_length. split; [exact H1|]. split; [lia|].
+    split; [constructor; assumption|]. split; [intros i [<-|Hi]; [split; assumption|apply H4; exact Hi]|].
+    split; [reflexivity|]. split.
+    + destruct fl as [|j r]; [exact I|]. simpl in H5. destruct H5 as (-> & _). eexists.
+      apply sa_nth_error_upd_eq. exact Hlt.
+    + destruct fl as [|j r]; [exact I|]. apply sa_chain_upd_other; [exact Hnin|].
+      pose proof H5 as H5'. simpl in H5'. destruct H5' as (-> & _). exact H5.
+  - intros i Hi. apply sa_nth_error_upd_ne. congruence.
+  - eexists. apply sa_nth_error_upd_eq. exact Hlt.
+Qed.
 
 (** Callbacks and event dispatch never touch the storage (they lock/unlock, log, and may
     unregister observers); they may fail (lock bits exhausted). *)
+(** *** Computations that leave the storage alone *)
+Lemma sa_storage_same_refl : forall s, storage_same s s.
+Proof. intros s. unfold storage_same. repeat split. Qed.
+
+Lemma sa_storage_same_trans : forall s1 s2 s3, storage_same s1 s2 -> storage_same s2 s3 -> storage_same s1 s3.
+Proof.
+  intros s1 s2 s3 (A1 & A2 & A3 & A4 & A5 & A6 & A7 & A8 & A9 & A10 & A11 & A12 & A13 & A14 & A15 & A16 & A17 & A18)
+    (B1 & B2 & B3 & B4 & B5 & B6 & B7 & B8 & B9 & B10 & B11 & B12 & B13 & B14 & B15 & B16 & B17 & B18).
+  unfold storage_same. repeat split; congruence.
+Qed.
+
+Definition sa_sp {A} (m : MW A) : Prop := forall s, storage_same s (state_of (m s)).
+
+Lemma sa_sp_ret : forall A (a : A), sa_sp (ret a).
+Proof. intros A a s. apply sa_storage_same_refl. Qed.
+Lemma sa_sp_fail : forall A e, sa_sp (@fail W A e).
+Proof. intros A e s. apply sa_storage_same_refl. Qed.
+Lemma sa_sp_get : sa_sp (@get W).
+Proof. intros s. apply sa_storage_same_refl. Qed.
+Lemma sa_sp_guard : forall b e, sa_sp (@guard W b e).
+Proof. intros b e s. destruct b; apply sa_storage_same_refl. Qed.
+Lemma sa_sp_of_opt : forall A (o : option A) e, sa_sp (@of_opt W A o e).
+Proof. intros A o e s. destruct o; apply sa_storage_same_refl. Qed.
+Lemma sa_sp_bind : forall A B (m : MW A) (k : A -> MW B), sa_sp m -> (forall a, sa_sp (k a)) -> sa_sp (bind m k).
+Proof.
+  intros A B m k Hm Hk s. unfold bind. specialize (Hm s). destruct (m s) as [a s'|e s']; simpl in Hm.
+  - eapply sa_storage_same_trans; [exact Hm|apply Hk].
+  - exact Hm.
+Qed.
+Lemma sa_sp_modify : forall f : W -> W, (forall s, storage_same s (f s)) -> sa_sp (modify f).
+Proof. intros f H s. apply H. Qed.
+Lemma sa_sp_whenM : forall b m, sa_sp m -> sa_sp (whenM b m).
+Proof. intros b m H. destruct b; [exact H|apply sa_sp_ret]. Qed.
+
+Lemma sa_sp_lockM : sa_sp lockM.
+Proof.
+  intros s. unfold lockM, bind, get, put, ret, fail. destruct (lock_lock (w_lock s)) as [[b l']|]; simpl;
+    unfold storage_same; repeat split.
+Qed.
+Lemma sa_sp_unlockM : forall b, sa_sp (unlockM b).
+Proof.
+  intros b s. unfold unlockM, bind, get, put, fail. destruct (lock_unlock (w_lock s) b) as [l'|]; simpl;
+    unfold storage_same; repeat split.
+Qed.
+Lemma sa_sp_log : forall l, sa_sp (log l).
+Proof. intros l. apply sa_sp_modify. intros s. unfold storage_same; repeat split. Qed.
+Lemma sa_sp_getO : forall oi, sa_sp (getO oi).
+Proof. intros oi. unfold getO. apply sa_sp_bind; [apply sa_sp_get|intros; apply sa_sp_of_opt]. Qed.
+Lemma sa_sp_modO : forall oi f, sa_sp (modO oi f).
+Proof. intros oi f. apply sa_sp_modify. intros s. unfold storage_same; repeat split. Qed.
+Lemma sa_sp_mod_agg : forall evt f, sa_sp (mod_agg evt f).
+Proof. intros evt f. apply sa_sp_modify. intros s. unfold storage_same; repeat split. Qed.
+
+Ltac sa_sp_step :=
+  lazymatch goal with
+  | |- sa_sp (ret _) => apply sa_sp_ret
+  | |- sa_sp (fail _) => apply sa_sp_fail
+  | |- sa_sp get => apply sa_sp_get
+  | |- sa_sp (guard _ _) => apply sa_sp_guard
+  | |- sa_sp (of_opt _ _) => apply sa_sp_of_opt
+  | |- sa_sp lockM => apply sa_sp_lockM
+  | |- sa_sp (unlockM _) => apply sa_sp_unlockM
+  | |- sa_sp (log _) => apply sa_sp_log
+  | |- sa_sp (getO _) => apply sa_sp_getO
+  | |- sa_sp (modO _ _) => apply sa_sp_modO
+  | |- sa_sp (mod_agg _ _) => apply sa_sp_mod_agg
+  | |- sa_sp (modify _) => apply sa_sp_modify; intros ?; unfold storage_same; repeat split
+  | |- sa_sp (whenM _ _) => apply sa_sp_whenM
+  | |- sa_sp (bind _ _) => apply sa_sp_bind; [|intros ?]
+  | |- sa_sp (match ?x with _ => _ end) => destruct x
+  end.
+Ltac sa_sp_tac := repeat sa_sp_step.
+
+Lemma sa_sp_remove_observer : forall oi, sa_sp (remove_observer oi).
+Proof. intros oi. unfold remove_observer. sa_sp_tac. Qed.
+
+Lemma sa_sp_run_callback : forall oi e, sa_sp (run_callback oi e).
+Proof.
+  intros oi e. unfold run_callback. sa_sp_tac; apply sa_sp_remove_observer.
+Qed.
+
+Lemma sa_sp_fire_loop : forall cb pred e, (forall oi e, sa_sp (cb oi e)) ->
+  forall l found, sa_sp (fire_loop cb pred e l found).
+Proof.
+  intros cb pred e Hcb l. induction l as [|oi rest IH]; intros found; cbn [fire_loop].
+  - apply sa_sp_ret.
+  - apply sa_sp_bind; [apply sa_sp_getO|]. intros o. destruct (pred o); [|apply IH].
+    apply sa_sp_bind; [apply Hcb|intros; apply IH].
+Qed.
+
+Lemma sa_sp_fire : forall evt early pred e eo, sa_sp (fire evt early pred e eo).
+Proof.
+  intros. unfold fire, fire_with. apply sa_sp_bind; [apply sa_sp_get|]. intros s.
+  destruct (_ && _)%bool; [apply sa_sp_ret|]. apply sa_sp_fire_loop. apply sa_sp_run_callback.
+Qed.
+
 Lemma run_callback_storage : forall oi e s, storage_same s (state_of (run_callback oi e s)).
-Admitted.
+Proof. intros oi e. apply sa_sp_run_callback. Qed.
 Lemma fire_storage : forall evt early pred e eo s, storage_same s (state_of (fire evt early pred e eo s)).
-Admitted.
+Proof. intros evt early pred e eo. apply sa_sp_fire. Qed.
 Lemma fire_remove_events_storage : forall e old new rr s, storage_same s (state_of (fire_remove_events e old new rr s)).
-Admitted.
+Proof.
+  intros e old new rr. change (sa_sp (fire_remove_events e old new rr)). unfold fire_remove_events, fire_remove.
+  sa_sp_tac; apply sa_sp_fire.
+Qed.
 Lemma fire_add_if_has_storage : forall evt e old new s, storage_same s (state_of (fire_add_if_has evt e old new s)).
-Admitted.
+Proof.
+  intros evt e old new. change (sa_sp (fire_add_if_has evt e old new)). unfold fire_add_if_has, fire_add.
+  sa_sp_tac; apply sa_sp_fire.
+Qed.
 Lemma fire_create_entity_if_has_storage : forall e m s, storage_same s (state_of (fire_create_entity_if_has e m s)).
-Admitted.
+Proof.
+  intros e m. change (sa_sp (fire_create_entity_if_has e m)). unfold fire_create_entity_if_has, fire_create_entity.
+  sa_sp_tac; apply sa_sp_fire.
+Qed.
